@@ -1148,6 +1148,9 @@ int main(int argc, char **argv) {
             e.assumptions.push_back("NOT EXERCISED (no generated call, no driver): " + un);
         }
     }
+    // library code that READS writable static storage is not reported as a violation (a table that merely lost its `const` changes
+    // nothing), but it is never silent: somebody may write that storage through an entry point that no generated call reaches
+    e.expect_zero = {"probe.load_from_writable_static", "probe.load_from_unknown_region"};
     e.quick_runs = 13800;
     e.thorough_runs = 690000;
     e.quick_wall_cap = 150;
